@@ -129,7 +129,7 @@ TRun == /\ IsEvent("run") /\ pc \in {"tcs", "done"} /\ tcs # <<>>
                    pre |-> <<>>, cl |-> <<>>, glang |-> Nothing, elang |-> Nothing,
                    fallback |-> FALSE, exprs |-> 0,
                    out |-> [outcome |-> "none"], olang |-> Nothing, okhir |-> FALSE,
-                   eps |-> FALSE, widened |-> FALSE, asbuilt |-> Nothing, mtrie |-> EmptyGr,
+                   eps |-> FALSE, widened |-> FALSE, asbuilt |-> Nothing, mtrie |-> EmptyGr, presorted |-> FALSE,
                    mmin |-> EmptyGr @@ [init |-> 0]]
         /\ (IF "MONDEBUG" \in DOMAIN IOEnv THEN PrintT(<<"RUN", l>>) ELSE TRUE)
         /\ pc' = "run" /\ l' = l + 1 /\ cnt' = Bump({"runs"})
@@ -153,7 +153,7 @@ TPre == /\ IsEvent("pre") /\ pc = "run" /\ Ev.r = run.r
               /\ Judge(ok2, ExactProps(c), "pre-lang", "")
               \* order / duplicate-freeness of the internal list is Level-2 detail: a note, never a verdict
               /\ Judge(ok3, {"TOOL"}, "pre-not-canonical", "")
-              /\ run' = [run EXCEPT !.pre = Ev.list, !.firstbad = FirstBad(ok1 /\ ok2, "pre")]
+              /\ run' = [run EXCEPT !.pre = Ev.list, !.presorted = ok3, !.firstbad = FirstBad(ok1 /\ ok2, "pre")]
         /\ pc' = "pre" /\ l' = l + 1 /\ cnt' = Bump({"pre"})
         /\ UNCHANGED <<G, tcs, memo>>
 
@@ -206,8 +206,10 @@ TTrie == /\ IsEvent("trie") /\ pc \in {"cl2", "sc1"} /\ Ev.r = run.r
                 mtrie == IF l2 \/ (~eq /\ Ev.widen > 0) THEN BuildTrie(run.cl, AsBuilt) ELSE EmptyGr
                 same == ~l2 \/ SameGraph(Ev, mtrie, 0)
                 asb == IF ~eq /\ Ev.widen > 0 THEN DescGraph(AsGraph(mtrie, 0)) ELSE Nothing
+                \* the known deviation is the AS-BUILT pipeline's: clusters inserted in the as-built order
+                \* (sorted by byte length, then text) through the as-built insertion. Any other order is new.
                 why == IF eq THEN "ok"
-                       ELSE IF okA /\ Ev.widen > 0 /\ Same(lang, asb) THEN "widen" ELSE "no"
+                       ELSE IF okA /\ Ev.widen > 0 /\ run.presorted /\ Same(lang, asb) THEN "widen" ELSE "no"
             IN /\ Judge(okA, {"C16"}, "trie-cyclic", "")
                /\ JudgeX(why, {"C16"} \cup (IF run.cfg.rep THEN {"C05"} ELSE {}), "trie")
                /\ Judge(same, {"TOOL"}, "level2-drift-trie", "")
@@ -407,6 +409,7 @@ FrontProp(front) == CASE front = "rust" -> "C10" [] front = "py" -> "C14" [] fro
 SettingProps(c) == (IF c.rep THEN {"C13", "C05"} ELSE {}) \cup (IF AnyClass(c) THEN {"C03"} ELSE {})
                    \cup (IF c.icase THEN {"C04"} ELSE {}) \cup (IF c.nostart \/ c.noend THEN {"C08"} ELSE {})
                    \cup (IF c.escape THEN {"C11"} ELSE {})
+                   \cup (IF c.escape \/ c.verbose \/ c.capture THEN {"C06"} ELSE {})
 
 EmitHX(props, kind, h, k, extra, why) ==
   PrintT(ToJson([verdict |-> kind, props |-> props, g |-> 0, r |-> 0, h |-> h, k |-> k,
